@@ -178,3 +178,116 @@ Proof.
     + D22 * (B 2%nat 0%nat * A 0%nat 2%nat + B 2%nat 1%nat * A 1%nat 2%nat + B 2%nat 2%nat * A 2%nat 2%nat))); [ring|].
   rewrite H11, H12, H13, H21, H22, H23, H31, H32, H33. ring.
 Qed.
+
+(* ---- H(curl), 3-D: covariant value v = B^T (f o G) o and its curl = o det(B) A (curl f) o G, where A is the inverse
+   of B given through the cofactor relations (row_m(B) x row_i(B))_a = det(B) A_(a,l) for (m,i,l) cyclic, i.e.
+   A det(B) = adj(B).  The delivered curl is einsum('ijkl,jl,kl->ikl', DF, dphi, 1/detDF*orient) with DF = A and
+   detDF det(B) = 1. ---- *)
+Definition cov_value3 (B : nat -> nat -> Q) (o : Q) (G : nat -> poly) (f0 f1 f2 : poly) (j : nat) : poly :=
+  padd (pscale (B 0%nat j * o) (psubst G f0)) (padd (pscale (B 1%nat j * o) (psubst G f1)) (pscale (B 2%nat j * o) (psubst G f2))).
+
+Lemma cov_value3_is_generated B o c f0 f1 f2 j x :
+  qeval (cov_value3 B o (aff_map B c 3) f0 f1 f2 j) x
+  == gen_hcurl_value3 B (fun i => qeval (nth i [f0; f1; f2] []) (qimage B c 3 x)) o j.
+Proof.
+  unfold cov_value3, qeval, gen_hcurl_value3, qimage. rewrite !q_ev_padd, !q_ev_pscale, !q_ev_psubst. simpl nth.
+  unfold image. ring.
+Qed.
+
+Definition curl_comp (f0 f1 f2 : poly) (l : nat) (y : nat -> Q) : Q :=
+  match l with
+  | 0%nat => qeval (pderiv 1 f2) y - qeval (pderiv 2 f1) y
+  | 1%nat => qeval (pderiv 2 f0) y - qeval (pderiv 0 f2) y
+  | _ => qeval (pderiv 0 f1) y - qeval (pderiv 1 f0) y
+  end.
+
+Theorem hcurl_cov_curl3_0 (A B : nat -> nat -> Q) (c : nat -> Q) (o detB : Q) (f0 f1 f2 : poly) (x : nat -> Q) :
+  mono_len_le 3 f0 -> mono_len_le 3 f1 -> mono_len_le 3 f2 ->
+  B 1%nat 1%nat * B 2%nat 2%nat - B 1%nat 2%nat * B 2%nat 1%nat == detB * A 0%nat 0%nat ->
+  B 2%nat 1%nat * B 0%nat 2%nat - B 2%nat 2%nat * B 0%nat 1%nat == detB * A 0%nat 1%nat ->
+  B 0%nat 1%nat * B 1%nat 2%nat - B 0%nat 2%nat * B 1%nat 1%nat == detB * A 0%nat 2%nat ->
+  qeval (pderiv 1 (cov_value3 B o (aff_map B c 3) f0 f1 f2 2)) x - qeval (pderiv 2 (cov_value3 B o (aff_map B c 3) f0 f1 f2 1)) x
+  == o * detB * (A 0%nat 0%nat * curl_comp f0 f1 f2 0 (qimage B c 3 x) + A 0%nat 1%nat * curl_comp f0 f1 f2 1 (qimage B c 3 x)
+                 + A 0%nat 2%nat * curl_comp f0 f1 f2 2 (qimage B c 3 x)).
+Proof.
+  intros L0 L1 L2 H0 H1 H2. unfold cov_value3, curl_comp, qeval.
+  rewrite !q_dv_padd, !q_dv_pscale.
+  rewrite (q_chain B c 3%nat f0 3%nat 1%nat x), (q_chain B c 3%nat f1 3%nat 1%nat x), (q_chain B c 3%nat f2 3%nat 1%nat x),
+          (q_chain B c 3%nat f0 3%nat 2%nat x), (q_chain B c 3%nat f1 3%nat 2%nat x), (q_chain B c 3%nat f2 3%nat 2%nat x)
+    by (lia || assumption).
+  unfold qimage. simpl sumn.
+  set (D00 := peval Q 0 1 Qplus Qmult (fun q => q) (pderiv 0 f0) _). set (D10 := peval Q 0 1 Qplus Qmult (fun q => q) (pderiv 1 f0) _).
+  set (D20 := peval Q 0 1 Qplus Qmult (fun q => q) (pderiv 2 f0) _). set (D01 := peval Q 0 1 Qplus Qmult (fun q => q) (pderiv 0 f1) _).
+  set (D11 := peval Q 0 1 Qplus Qmult (fun q => q) (pderiv 1 f1) _). set (D21 := peval Q 0 1 Qplus Qmult (fun q => q) (pderiv 2 f1) _).
+  set (D02 := peval Q 0 1 Qplus Qmult (fun q => q) (pderiv 0 f2) _). set (D12 := peval Q 0 1 Qplus Qmult (fun q => q) (pderiv 1 f2) _).
+  set (D22 := peval Q 0 1 Qplus Qmult (fun q => q) (pderiv 2 f2) _).
+  transitivity (o * ((D12 - D21) * (B 1%nat 1%nat * B 2%nat 2%nat - B 1%nat 2%nat * B 2%nat 1%nat)
+                     + (D20 - D02) * (B 2%nat 1%nat * B 0%nat 2%nat - B 2%nat 2%nat * B 0%nat 1%nat)
+                     + (D01 - D10) * (B 0%nat 1%nat * B 1%nat 2%nat - B 0%nat 2%nat * B 1%nat 1%nat))); [ring|].
+  rewrite H0, H1, H2. ring.
+Qed.
+
+Theorem hcurl_cov_curl3_1 (A B : nat -> nat -> Q) (c : nat -> Q) (o detB : Q) (f0 f1 f2 : poly) (x : nat -> Q) :
+  mono_len_le 3 f0 -> mono_len_le 3 f1 -> mono_len_le 3 f2 ->
+  B 1%nat 2%nat * B 2%nat 0%nat - B 1%nat 0%nat * B 2%nat 2%nat == detB * A 1%nat 0%nat ->
+  B 2%nat 2%nat * B 0%nat 0%nat - B 2%nat 0%nat * B 0%nat 2%nat == detB * A 1%nat 1%nat ->
+  B 0%nat 2%nat * B 1%nat 0%nat - B 0%nat 0%nat * B 1%nat 2%nat == detB * A 1%nat 2%nat ->
+  qeval (pderiv 2 (cov_value3 B o (aff_map B c 3) f0 f1 f2 0)) x - qeval (pderiv 0 (cov_value3 B o (aff_map B c 3) f0 f1 f2 2)) x
+  == o * detB * (A 1%nat 0%nat * curl_comp f0 f1 f2 0 (qimage B c 3 x) + A 1%nat 1%nat * curl_comp f0 f1 f2 1 (qimage B c 3 x)
+                 + A 1%nat 2%nat * curl_comp f0 f1 f2 2 (qimage B c 3 x)).
+Proof.
+  intros L0 L1 L2 H0 H1 H2. unfold cov_value3, curl_comp, qeval.
+  rewrite !q_dv_padd, !q_dv_pscale.
+  rewrite (q_chain B c 3%nat f0 3%nat 2%nat x), (q_chain B c 3%nat f1 3%nat 2%nat x), (q_chain B c 3%nat f2 3%nat 2%nat x),
+          (q_chain B c 3%nat f0 3%nat 0%nat x), (q_chain B c 3%nat f1 3%nat 0%nat x), (q_chain B c 3%nat f2 3%nat 0%nat x)
+    by (lia || assumption).
+  unfold qimage. simpl sumn.
+  set (D00 := peval Q 0 1 Qplus Qmult (fun q => q) (pderiv 0 f0) _). set (D10 := peval Q 0 1 Qplus Qmult (fun q => q) (pderiv 1 f0) _).
+  set (D20 := peval Q 0 1 Qplus Qmult (fun q => q) (pderiv 2 f0) _). set (D01 := peval Q 0 1 Qplus Qmult (fun q => q) (pderiv 0 f1) _).
+  set (D11 := peval Q 0 1 Qplus Qmult (fun q => q) (pderiv 1 f1) _). set (D21 := peval Q 0 1 Qplus Qmult (fun q => q) (pderiv 2 f1) _).
+  set (D02 := peval Q 0 1 Qplus Qmult (fun q => q) (pderiv 0 f2) _). set (D12 := peval Q 0 1 Qplus Qmult (fun q => q) (pderiv 1 f2) _).
+  set (D22 := peval Q 0 1 Qplus Qmult (fun q => q) (pderiv 2 f2) _).
+  transitivity (o * ((D12 - D21) * (B 1%nat 2%nat * B 2%nat 0%nat - B 1%nat 0%nat * B 2%nat 2%nat)
+                     + (D20 - D02) * (B 2%nat 2%nat * B 0%nat 0%nat - B 2%nat 0%nat * B 0%nat 2%nat)
+                     + (D01 - D10) * (B 0%nat 2%nat * B 1%nat 0%nat - B 0%nat 0%nat * B 1%nat 2%nat))); [ring|].
+  rewrite H0, H1, H2. ring.
+Qed.
+
+Theorem hcurl_cov_curl3_2 (A B : nat -> nat -> Q) (c : nat -> Q) (o detB : Q) (f0 f1 f2 : poly) (x : nat -> Q) :
+  mono_len_le 3 f0 -> mono_len_le 3 f1 -> mono_len_le 3 f2 ->
+  B 1%nat 0%nat * B 2%nat 1%nat - B 1%nat 1%nat * B 2%nat 0%nat == detB * A 2%nat 0%nat ->
+  B 2%nat 0%nat * B 0%nat 1%nat - B 2%nat 1%nat * B 0%nat 0%nat == detB * A 2%nat 1%nat ->
+  B 0%nat 0%nat * B 1%nat 1%nat - B 0%nat 1%nat * B 1%nat 0%nat == detB * A 2%nat 2%nat ->
+  qeval (pderiv 0 (cov_value3 B o (aff_map B c 3) f0 f1 f2 1)) x - qeval (pderiv 1 (cov_value3 B o (aff_map B c 3) f0 f1 f2 0)) x
+  == o * detB * (A 2%nat 0%nat * curl_comp f0 f1 f2 0 (qimage B c 3 x) + A 2%nat 1%nat * curl_comp f0 f1 f2 1 (qimage B c 3 x)
+                 + A 2%nat 2%nat * curl_comp f0 f1 f2 2 (qimage B c 3 x)).
+Proof.
+  intros L0 L1 L2 H0 H1 H2. unfold cov_value3, curl_comp, qeval.
+  rewrite !q_dv_padd, !q_dv_pscale.
+  rewrite (q_chain B c 3%nat f0 3%nat 0%nat x), (q_chain B c 3%nat f1 3%nat 0%nat x), (q_chain B c 3%nat f2 3%nat 0%nat x),
+          (q_chain B c 3%nat f0 3%nat 1%nat x), (q_chain B c 3%nat f1 3%nat 1%nat x), (q_chain B c 3%nat f2 3%nat 1%nat x)
+    by (lia || assumption).
+  unfold qimage. simpl sumn.
+  set (D00 := peval Q 0 1 Qplus Qmult (fun q => q) (pderiv 0 f0) _). set (D10 := peval Q 0 1 Qplus Qmult (fun q => q) (pderiv 1 f0) _).
+  set (D20 := peval Q 0 1 Qplus Qmult (fun q => q) (pderiv 2 f0) _). set (D01 := peval Q 0 1 Qplus Qmult (fun q => q) (pderiv 0 f1) _).
+  set (D11 := peval Q 0 1 Qplus Qmult (fun q => q) (pderiv 1 f1) _). set (D21 := peval Q 0 1 Qplus Qmult (fun q => q) (pderiv 2 f1) _).
+  set (D02 := peval Q 0 1 Qplus Qmult (fun q => q) (pderiv 0 f2) _). set (D12 := peval Q 0 1 Qplus Qmult (fun q => q) (pderiv 1 f2) _).
+  set (D22 := peval Q 0 1 Qplus Qmult (fun q => q) (pderiv 2 f2) _).
+  transitivity (o * ((D12 - D21) * (B 1%nat 0%nat * B 2%nat 1%nat - B 1%nat 1%nat * B 2%nat 0%nat)
+                     + (D20 - D02) * (B 2%nat 0%nat * B 0%nat 1%nat - B 2%nat 1%nat * B 0%nat 0%nat)
+                     + (D01 - D10) * (B 0%nat 0%nat * B 1%nat 1%nat - B 0%nat 1%nat * B 1%nat 0%nat))); [ring|].
+  rewrite H0, H1, H2. ring.
+Qed.
+
+(* delivered 3-D curl: the regenerated einsum with c = 1/detDF * orient, DF = A, detDF det(B) = 1 *)
+Theorem hcurl_curl3_scale (A : nat -> nat -> Q) (dphi : nat -> Q) (detDF orient detB : Q) (i : nat) :
+  detDF * detB == 1 ->
+  gen_hcurl_curl3 A dphi (gen_hcurl_scale detDF orient) i
+  == orient * detB * (A i 0%nat * dphi 0%nat + A i 1%nat * dphi 1%nat + A i 2%nat * dphi 2%nat).
+Proof.
+  intros H. unfold gen_hcurl_curl3, gen_hcurl_scale.
+  assert (Hne : ~ detDF == 0). { intros E. rewrite E in H. ring_simplify in H. discriminate H. }
+  assert (E2 : 1 / detDF * orient == orient * detB).
+  { assert (E3 : orient * detB == orient * (detDF * detB) / detDF) by (field; assumption). rewrite E3, H. field. assumption. }
+  rewrite E2. ring.
+Qed.
